@@ -1,4 +1,5 @@
 mod hist;
+mod models;
 mod oracle;
 mod props;
 mod run;
@@ -10,6 +11,10 @@ use std::collections::BTreeMap;
 
 fn verif_dir() -> String {
     std::env::var("VERIF_DIR").unwrap_or_else(|_| "/verif".to_string())
+}
+
+fn out_dir() -> String {
+    std::env::var("VERIF_OUT").unwrap_or_else(|_| verif_dir())
 }
 
 fn seed() -> u64 {
@@ -112,7 +117,7 @@ fn run_check<E: Engine>(eng: &E, prop: &'static str, tier: &str, rule: String, a
         Err(path) => {
             let stats = Stats::default();
             write_evidence(
-                &verif_dir(),
+                &out_dir(),
                 EvidenceIn {
                     prop,
                     tier,
@@ -141,7 +146,7 @@ fn run_check<E: Engine>(eng: &E, prop: &'static str, tier: &str, rule: String, a
     let mut code = 0;
     let mut extra = BTreeMap::new();
     if let Some(v) = &v {
-        let path = write_replay(&verif_dir(), eng, prop, v);
+        let path = write_replay(&out_dir(), eng, prop, v);
         println!("{}: {}", v.finding.sig, v.finding.detail);
         println!("history: {}", eng.render(&v.case));
         println!("VIOLATION property={prop} replay={path}");
@@ -151,7 +156,7 @@ fn run_check<E: Engine>(eng: &E, prop: &'static str, tier: &str, rule: String, a
     }
     extra.insert("known_finding_lines".into(), serde_json::json!(known_lines));
     write_evidence(
-        &verif_dir(),
+        &out_dir(),
         EvidenceIn {
             prop,
             tier,
